@@ -27,9 +27,13 @@ type ACase struct {
 type countingWriter struct {
 	got   []byte
 	empty int
+	limit int
 }
 
 func (w *countingWriter) Write(p []byte) (int, error) {
+	if w.limit > 0 && len(w.got) > w.limit {
+		panic(spinPanic{}) // far more output than the input has bytes: the call will never end
+	}
 	if len(p) == 0 {
 		w.empty++
 		if w.empty > 8 {
@@ -91,7 +95,7 @@ func (r *acceptRun) run(c *engine.Chooser) {
 	r.c = c
 	r.log = r.log[:0]
 	r.st.Execs++
-	w := &countingWriter{}
+	w := &countingWriter{limit: 2*len(r.input) + 64}
 	d, err := lz.NewDecoder(w, lz.DecoderConfig{WindowSize: r.W, BufferSize: r.decB})
 	if err != nil {
 		panic(fmt.Errorf("decoder config W=%d B=%d rejected: %v", r.W, r.decB, err))
